@@ -3654,16 +3654,30 @@ class NetCDFWrite(IOWrite):
                             # off any group structure from the name.
                             ncdim = self._remove_group_structure(ncdim)
 
-                        ncdim = self._netcdf_name(ncdim)
+                        if (
+                            g["external_file_iteration"]
+                            and g["ncdim_to_size"].get(ncdim) == axis_size0
+                            and ncdim not in g["axis_to_ncdim"].values()
+                        ):
+                            # This is an external variable of a parent
+                            # file, and the netCDF dimension of the
+                            # parent file that it spans has already
+                            # been created for another external
+                            # variable. The dimensions of an external
+                            # variable must have the same names as in
+                            # the parent file, so use that dimension.
+                            g["axis_to_ncdim"][axis] = ncdim
+                        else:
+                            ncdim = self._netcdf_name(ncdim)
 
-                        unlimited = self._unlimited(f, axis)
-                        self._write_dimension(
-                            ncdim, f, axis, unlimited=unlimited
-                        )
+                            unlimited = self._unlimited(f, axis)
+                            self._write_dimension(
+                                ncdim, f, axis, unlimited=unlimited
+                            )
 
-                        ncdim_size_to_spanning_constructs.append(
-                            {(ncdim, axis_size0): spanning_constructs}
-                        )
+                            ncdim_size_to_spanning_constructs.append(
+                                {(ncdim, axis_size0): spanning_constructs}
+                            )
 
         if field:
             field_data_axes = tuple(self.implementation.get_field_data_axes(f))
@@ -4941,6 +4955,10 @@ class NetCDFWrite(IOWrite):
             "index_variable_sample_dimension": {},
             "external_variables": set(),
             "external_fields": [],
+            # Whether or not the file being written is an external
+            # file, i.e. all of its variables are external variables
+            # of a parent file
+            "external_file_iteration": False,
             "geometry_containers": {},
             "geometry_encoding": {},
             "geometry_dimensions": set(),
@@ -5348,6 +5366,13 @@ class NetCDFWrite(IOWrite):
         # Write external fields to the external file
         # ------------------------------------------------------------
         if g["external_fields"] and g["external_file"] is not None:
+            if extra_write_vars:
+                extra_write_vars = extra_write_vars.copy()
+            else:
+                extra_write_vars = {}
+
+            extra_write_vars["external_file_iteration"] = True
+
             self.write(
                 fields=g["external_fields"],
                 filename=g["external_file"],
